@@ -81,6 +81,11 @@ CHECKS = {
             "Concurrent histories of 1-8 dispatchers on validate_order tables with colliding timestamps: every per-name history (call/return stamps from one atomic counter, result = the unique line reached the capture route) must be linearizable against accept <=> strictly newer, incl. dotted/undotted spellings of one name and timestamps up to 2^32-1; out_of_order must count exactly the rejects; every reject must be reported by Table.Bad() and forwarded nowhere; sequential sub-histories must never reject a newer point; race reports inside validate.Ordered count.",
             "Schedules are whatever the Go scheduler produced under -race (validate has no hook); porcupine timeout = inconclusive; FNV-64 key collisions out of reach; bad metrics checked as last record per name.",
             "DESIGN.md §4 C19"),
+    "C20": ("exploration",
+            "runtime monitoring: differential + documentation-table oracle over table entries built by the real TOML and command paths (field read-back incl. unexported / running-state accessors, filter and rewriter behaviour probes), real relay binary for $-interpolation, under -race",
+            "Generated configurations (blacklist x6 kinds, rewriters, aggregations incl. sub/substr and cache/dropRaw tri-state, carbon routes x3 types with 1-4 destinations and random subsets of the 18 destination options, grafanaNet routes with all options, booleans given true/false/omitted) are written as TOML sections and as the equivalent commands, built by the real code, and every field is read back (exported fields, Snapshot()s, periodFlush/periodReConn/connBufSize/ioBufSize, the parameters the running spool, disk queue and http client received): each must equal the written value, else the default transcribed from the docs; all values unique per case so ignored, swapped and misplaced options are visible. $-strings ($1, ${1}, ${1}x, $$, ${}, near-miss names, unterminated braces) go through readConfigFile in the real binary and are compared byte for byte with a model substituting only the four documented variables.",
+            "The docs are the specification; values restricted to what the command grammar can express; kafkaMdm/pubsub/cloudWatch not constructible offline; an explicit value equal to the default cannot be told apart from an ignored option.",
+            "DESIGN.md §4 C20"),
 }
 
 NOT_APPLICABLE = {
